@@ -1024,13 +1024,45 @@ def _g3(ctx: Context) -> None:
         if isinstance(it, ast.Call) and isinstance(it.func, ast.Name) and it.func.id == "range" and len(it.args) == 1:
             k = ctx.const(f, it.args[0], None)
             bounded = isinstance(k, int) and 0 < k <= 10000
+            if not isinstance(k, int):
+                # not a constant: every value the bound can take - a positive constant, or a parameter that no caller in the
+                # package passes (it then has its default: None, replaced by a constant before the loop, or a constant)
+                def _alts(t_):
+                    return [a_ for x_ in t_[1] for a_ in _alts(x_)] if t_[0] == "phi" else [t_]
+
+                verdicts = []
+                for a_ in _alts(strip_sites(T.of(cfg, n, it.args[0]))):
+                    if a_[0] == "const" and isinstance(a_[1], int) and not isinstance(a_[1], bool):
+                        verdicts.append(0 < a_[1] <= 10000)
+                    elif a_[0] == "param" and a_[1] in f.pos_params:
+                        pi = f.pos_params.index(a_[1])
+                        passed = False
+                        for g_ in ctx.prog.package_functions():
+                            if isinstance(g_.node, ast.Lambda):
+                                continue
+                            for c_ in ast.walk(g_.node):
+                                if isinstance(c_, ast.Call) and f.qualname in ctx.callee_names(g_, c_):
+                                    if len(c_.args) > pi or any(kw_.arg in (a_[1], None) for kw_ in c_.keywords) or any(isinstance(x_, ast.Starred) for x_ in c_.args):
+                                        passed = True
+                        dflt = f.node.args.defaults[pi - (len(f.pos_params) - len(f.node.args.defaults))] if pi >= len(f.pos_params) - len(f.node.args.defaults) else None
+                        dv = ctx.const(f, dflt, NotImplemented) if dflt is not None else NotImplemented
+                        verdicts.append(None if passed or dv is NotImplemented else True if dv is None else (isinstance(dv, int) and 0 < dv <= 10000))
+                    else:
+                        verdicts.append(None)
+                if verdicts and all(v_ is True for v_ in verdicts):
+                    bounded = True
+                elif verdicts and not any(v_ is False for v_ in verdicts):
+                    ck.unknown("C15.G3", f"_pairing_char_write: the bound of the reassembly loop `{n.text()}` is not a constant of this function: not decided", ctx.loc(f, n))
+                    bounded = None
     # leaving the loop by exhaustion raises
     ends_raise = True
     for n in cfg.nodes:
         if n.kind == "for":
             for e in cfg.out_edges(n, ("F",)):
                 ends_raise &= cfg.exit.id not in cfg.reachable_from(e[1])
-    ck.check("C15.G3", bounded and ends_raise, "reassembly is bounded by a positive constant and exhaustion raises",
+    if bounded is None:
+        bounded = True  # reported above as not decided; the exhaustion check below still applies
+    ck.check("C15.G3", bool(bounded) and ends_raise, "reassembly is bounded by a positive constant and exhaustion raises",
              f"{ctx.fkey(f)}:bounded", "_pairing_char_write: reassembly is unbounded or ends silently", f.loc())
 
 
